@@ -27,6 +27,12 @@ type DuringCase struct {
 	Replays int    `json:"replays"`
 	Batch   int    `json:"batch,omitempty"`
 	ViaBus  bool   `json:"via_bus,omitempty"` // the appender publishes through the bus instead of appending directly
+	// Appenders > 1: that many goroutines append directly to the store at the
+	// same time (several writers sharing one store).  Their events carry ids
+	// in no particular order, so replays are judged by offsets: strictly
+	// increasing along every replay, no event twice, and the replay over the
+	// log at rest delivers every stored event.
+	Appenders int `json:"appenders,omitempty"`
 	Procs   int    `json:"procs"`
 }
 
@@ -35,6 +41,10 @@ func GenDuring(t *rapid.T) *DuringCase {
 		Pre: rapid.SampledFrom([]int{0, 3, 50, 2000, 20000}).Draw(t, "pre"), Add: rapid.IntRange(1, 40).Draw(t, "add"),
 		Replays: rapid.IntRange(1, 6).Draw(t, "replays"), ViaBus: rapid.Bool().Draw(t, "viaBus"), Procs: rapid.SampledFrom([]int{2, 4, 16}).Draw(t, "procs")}
 	c.Start = rapid.SampledFrom([]int{0, 0, c.Pre / 2, c.Pre}).Draw(t, "start")
+	if rapid.IntRange(0, 2).Draw(t, "multi") == 0 {
+		c.Appenders = rapid.IntRange(2, 6).Draw(t, "appenders")
+		c.ViaBus = false
+	}
 	if c.Config == "mem-paged" {
 		c.Batch = rapid.SampledFrom([]int{0, 7, 1000}).Draw(t, "batch")
 	}
@@ -66,12 +76,27 @@ func RunDuring(c *DuringCase) *vkit.Outcome {
 			from = off
 		}
 	}
+	multi := c.Appenders > 1
 	replay := func(what string, atLeast, exactly int) bool {
 		want := c.Start + 1
 		n := 0
+		var prev eventbus.Offset
+		seen := map[int]bool{}
 		err := bus.Replay(bg, from, func(se *eventbus.StoredEvent) error {
 			var e Ev
-			if jsonUnmarshal(se.Data, &e) != nil || e.I != want {
+			if jsonUnmarshal(se.Data, &e) != nil {
+				return fmt.Errorf("callback %d received undecodable data %s", n+1, se.Data)
+			}
+			if multi {
+				if n > 0 && !(se.Offset > prev) {
+					return fmt.Errorf("callback %d received offset %q after %q: not in log order", n+1, se.Offset, prev)
+				}
+				if seen[e.I] {
+					return fmt.Errorf("callback %d received event %d a second time", n+1, e.I)
+				}
+				seen[e.I] = true
+				prev = se.Offset
+			} else if e.I != want {
 				return fmt.Errorf("callback %d received event %d, expected event %d", n+1, e.I, want)
 			}
 			want++
@@ -89,18 +114,25 @@ func RunDuring(c *DuringCase) *vkit.Outcome {
 		return true
 	}
 	var wg sync.WaitGroup
-	wg.Add(1)
-	go func() {
-		defer wg.Done()
-		for i := c.Pre + 1; i <= c.Pre+c.Add; i++ {
-			if c.ViaBus {
-				eventbus.Publish(bus, Ev{I: i})
-			} else {
-				store.Append(bg, &eventbus.Event{Type: typeName, Data: []byte(fmt.Sprintf(`{"i":%d}`, i))})
+	nApp := 1
+	if multi {
+		nApp = c.Appenders
+	}
+	for a := 0; a < nApp; a++ {
+		wg.Add(1)
+		go func(a int) {
+			defer wg.Done()
+			for k := 0; k < c.Add; k++ {
+				i := c.Pre + 1 + a*c.Add + k
+				if c.ViaBus {
+					eventbus.Publish(bus, Ev{I: i})
+				} else {
+					store.Append(bg, &eventbus.Event{Type: typeName, Data: []byte(fmt.Sprintf(`{"i":%d}`, i))})
+				}
+				runtime.Gosched()
 			}
-			runtime.Gosched()
-		}
-	}()
+		}(a)
+	}
 	ok := true
 	for r := 0; r < c.Replays && ok; r++ {
 		ok = replay(fmt.Sprintf("replay %d (overlapping appends)", r+1), c.Pre-c.Start, -1)
@@ -110,7 +142,7 @@ func RunDuring(c *DuringCase) *vkit.Outcome {
 	if !ok {
 		return o
 	}
-	total := c.Pre + c.Add - c.Start
+	total := c.Pre + nApp*c.Add - c.Start
 	if !replay("the replay over the log at rest", total, total) {
 		return o
 	}
